@@ -116,6 +116,31 @@ fn main() {
             let code = runner::replay(&properties(), &PathBuf::from(&args[2]), verbose);
             std::process::exit(code);
         }
+        "hashes" => {
+            // sim hashes <ID> <tier> <count> <w> <n>: event-log hash of runs w, w+n, .. below count
+            let prop = find(&args[2]);
+            let tier = tier_of(&args[3]);
+            let count: u64 = args[4].parse().unwrap();
+            let w: u64 = args.get(5).map_or(0, |s| s.parse().unwrap());
+            let n: u64 = args.get(6).map_or(1, |s| s.parse().unwrap());
+            let base = env_u64("VERIF_SEED", 1);
+            runner::install_panic_hook();
+            let mut index = w;
+            while index < count {
+                let seed = util::seed_for(base, prop.id(), index);
+                let plan = prop.plan(seed, index, tier);
+                let r = runner::run_isolated(prop, &plan, &runner::Exec::Seeded(seed), false);
+                let kinds: Vec<String> = r.violations.iter().map(runner::Violation::signature).collect();
+                println!(
+                    "{index} {seed:016x} {:016x} {:016x} {} {}",
+                    r.log_hash,
+                    r.shape,
+                    r.log_events,
+                    kinds.join("|")
+                );
+                index += n;
+            }
+        }
         "plan" => {
             // print the plan of one run: sim plan <ID> <tier> <index>
             let prop = find(&args[2]);
